@@ -376,6 +376,7 @@ func (c runCfg) String() string {
 
 var fingerprints = map[uint64]bool{}
 var snapshotSink int
+var snapshotSink2 atomic.Int64
 var hangs int
 
 func runOnce(w *hx.W, rng *rand.Rand, cfg runCfg, seed int64) {
@@ -400,10 +401,22 @@ func runOnce(w *hx.W, rng *rand.Rand, cfg runCfg, seed int64) {
 	srv.wg.Add(2)
 	go srv.reader()
 	go srv.responder()
+	// the unilateral-data handlers query the client they belong to (nothing forbids it): they run
+	// on the reader goroutine, so a handler called while an internal lock is held blocks everything
+	var cref atomic.Pointer[imapclient.Client]
+	touch := func() {
+		if c := cref.Load(); c != nil {
+			_ = c.State()
+			if mb := c.Mailbox(); mb != nil {
+				snapshotSink2.Add(int64(mb.NumMessages))
+			}
+		}
+	}
 	c := imapclient.New(cEnd, &imapclient.Options{UnilateralDataHandler: &imapclient.UnilateralDataHandler{
-		Mailbox: func(*imapclient.UnilateralDataMailbox) {},
-		Expunge: func(uint32) {},
+		Mailbox: func(*imapclient.UnilateralDataMailbox) { touch() },
+		Expunge: func(uint32) { touch() },
 	}})
+	cref.Store(c)
 	acc := &account{current: map[int]string{}}
 	viol := func(class, detail string, extra map[string]interface{}) {
 		if extra == nil {
@@ -527,6 +540,109 @@ func runOnce(w *hx.W, rng *rand.Rand, cfg runCfg, seed int64) {
 	w.MetricMax("max_lock_sites_exercised", int64(st.Sites))
 }
 
+// longLived: more than 10000 commands on ONE client, submitted by several goroutines, with one
+// command kept pending the whole time. Tags must stay unique for the life of the connection and
+// every command must complete with the status of the response bearing its own tag.
+func longLived(w *hx.W, total, workers int) {
+	desc := fmt.Sprintf("long-lived client: %d NOOPs from %d goroutines with a STATUS pending throughout", total, workers)
+	end := w.Begin("long-lived", desc, 600*time.Second)
+	defer end()
+	log := &vconn.Log{}
+	cEnd, sEnd := vconn.Pipe("client", "server", log)
+	srvDone := make(chan struct{})
+	go func() {
+		defer close(srvDone)
+		br := bufio.NewReader(sEnd)
+		sEnd.Write([]byte("* OK [CAPABILITY IMAP4rev1 LITERAL-] ready\r\n"))
+		held, seen := "", 0
+		for {
+			line, err := br.ReadString('\n')
+			if err != nil {
+				return
+			}
+			f := strings.Fields(line)
+			if len(f) < 2 {
+				continue
+			}
+			switch strings.ToUpper(f[1]) {
+			case "STATUS":
+				held = f[0]
+			case "NOOP":
+				seen++
+				sEnd.Write([]byte(f[0] + " OK done\r\n"))
+				if seen == total && held != "" {
+					sEnd.Write([]byte(held + " NO [NONEXISTENT] no such mailbox\r\n"))
+				}
+			default:
+				sEnd.Write([]byte(f[0] + " OK done\r\n"))
+			}
+		}
+	}()
+	c := imapclient.New(cEnd, nil)
+	viol := func(class, detail string) {
+		w.Violation(class+"/long-lived", fmt.Sprintf("%s: %s [%s]", class, detail, desc), nil)
+	}
+	if err := c.WaitGreeting(); err != nil {
+		viol("command-failed-on-healthy-connection@greeting", err.Error())
+		return
+	}
+	st := c.Status("held", &imap.StatusOptions{NumMessages: true})
+	var wg sync.WaitGroup
+	var nFailed int64
+	for g := 0; g < workers; g++ {
+		wg.Add(1)
+		go func() {
+			defer wg.Done()
+			for i := 0; i < total/workers; i++ {
+				if err := c.Noop().Wait(); err != nil {
+					if atomic.AddInt64(&nFailed, 1) == 1 {
+						viol("wrong-completion", fmt.Sprintf("a NOOP answered OK completed with %v", err))
+					}
+					return
+				}
+			}
+		}()
+	}
+	doneCh := make(chan struct{})
+	go func() { wg.Wait(); close(doneCh) }()
+	select {
+	case <-doneCh:
+	case <-time.After(300 * time.Second):
+		viol("command-never-completes", "NOOPs are still blocked")
+		cEnd.Close()
+		sEnd.Close()
+		return
+	}
+	stErr := make(chan error, 1)
+	go func() { _, err := st.Wait(); stErr <- err }()
+	select {
+	case err := <-stErr:
+		if err == nil {
+			viol("wrong-completion", "the STATUS that was answered NO completed successfully (it received another command's completion)")
+		}
+	case <-time.After(60 * time.Second):
+		viol("command-never-completes", "the pending STATUS never completed although its tagged NO was sent")
+	}
+	c.Close()
+	sEnd.Close()
+	<-srvDone
+	tags := map[string]int{}
+	for _, ln := range bytes.Split(log.Bytes("client"), []byte("\r\n")) {
+		f := bytes.Fields(ln)
+		if len(f) >= 2 {
+			tags[string(f[0])]++
+		}
+	}
+	for t, n := range tags {
+		if n > 1 {
+			viol("duplicate-tag", fmt.Sprintf("tag %s was used for %d commands on one connection", t, n))
+			break
+		}
+	}
+	w.Metric("long_lived_commands", int64(len(tags)))
+	w.Class("long-lived")
+}
+
 func clientStacks(all string) []string {
 	var keep []string
 	for _, g := range strings.Split(all, "\n\n") {
@@ -539,6 +655,10 @@ func clientStacks(all string) []string {
 
 func body(w *hx.W) {
 	defer runtime.GOMAXPROCS(runtime.GOMAXPROCS(0))
+	if w.Shard == 0 {
+		longLived(w, w.Pick(10400, 40000), 4)
+		w.CaseStr("long-lived")
+	}
 	rng := w.Rand("c13")
 	n := w.Pick(150, 1700)
 	for i := 0; i < n; i++ {
@@ -588,11 +708,12 @@ func main() {
 	hx.Main(hx.Spec{
 		ID:    "C13",
 		Level: "exploration",
-		Rule:  "runs = N in {2,4,8} goroutines x 6..15 random commands each (plain, streaming with full and partial consumption, synchronising and non-synchronising literals, ENABLE, IDLE) against a scripted server answering out of order, x {healthy, connection reset at a random byte, concurrent Close after a random number of submissions, both} x greeting / LOGIN with or without capability data x GOMAXPROCS in {1,2,4,16} x yield probability in {0,5,20,50}% at every lock boundary of package imapclient, each workload repeated under 3 yield seeds; distinct = distinct (configuration, seed)",
+		Rule:  "runs = N in {2,4,8} goroutines x 6..15 random commands each (plain, streaming with full and partial consumption, synchronising and non-synchronising literals, ENABLE, IDLE) against a scripted server answering out of order, x {healthy, connection reset at a random byte, concurrent Close after a random number of submissions, both} x greeting / LOGIN with or without capability data x GOMAXPROCS in {1,2,4,16} x yield probability in {0,5,20,50}% at every lock boundary of package imapclient, each workload repeated under 3 yield seeds; plus one long-lived client with more than 10000 commands from 4 goroutines and one command pending throughout; distinct = distinct (configuration, seed)",
 		Assumptions: []string{
 			"the race detector only sees the interleavings the yield seeds and the scheduler produce; evidence reports the number of distinct lock-acquisition fingerprints observed",
 			"on a healthy connection every command must succeed; after a connection loss or Close every command must still complete (with an error)",
 			"yields are injected only before Lock and after Unlock (genuine suspension points)",
+			"the unilateral-data handlers call State() and Mailbox() of their own client (quick, non-blocking accessors; Caps() is not called there because it is documented to wait for the server)",
 		},
 		RaceFrames: []string{"imapclient.", "imapwire."},
 		Shards:     func(string) int { return 8 },
